@@ -107,6 +107,22 @@ def run(unit, em):
                         for x in walk(c):
                             if x['k'] == 'DeclRefExpr' and x.get('d') == d:
                                 reads.append(x)
+            # the flag handed on as a value (`res &= tempres;`, `all = all && f;`, `return`/argument uses inside the loop that
+            # accumulates it): also a read after which the flag must start afresh for the next element
+            acc_loops = [L for L in fn.walk(lambdas=False) if L['k'] in LOOPS and any(any(x is f_ for x in walk(L)) for f_ in fills)]
+            for x in fn.walk(lambdas=False):
+                if x['k'] != 'DeclRefExpr' or x.get('d') != d or any(x is r_ for r_ in reads):
+                    continue
+                if any(any(y is x for y in walk(f_)) for f_ in fills):
+                    continue        # part of its own accumulation
+                par = x.get('_p')
+                while par is not None and par['k'] in ('ImplicitCastExpr', 'ParenExpr'):
+                    par = par.get('_p')
+                if par is not None and par['k'] == 'BinaryOperator' and par.get('op') == '=' and strip(par['ch'][0]) is x:
+                    continue        # a plain assignment to the flag
+                if not any(any(y is x for y in walk(L)) for L in acc_loops):
+                    continue        # read outside the loops that accumulate it (the final verdict)
+                reads.append(x)
             if not reads:
                 continue
             if short in ANCHORS and not anchored:
